@@ -148,17 +148,18 @@ Record state := mkState {
   status : Z;
   numNodes : Z;
   setDuring : list nid;             (* setDuringStabilization (kept sorted by id) *)
+  setRemoved : list nid;            (* setDuringStabilizationRemoved *)
   handlers : list nid;              (* handleAfterStabilization keys (node or observer ids), sorted *)
   maxHeight : Z;
   log : list event                  (* events, most recent first *)
 }.
 Global Instance eta_state : Settable _ :=
   settable! mkState <nodes; binds; next; reg; obs; heap; adj; invq; stabNum; status;
-                     numNodes; setDuring; handlers; maxHeight; log>.
+                     numNodes; setDuring; setRemoved; handlers; maxHeight; log>.
 
 Definition init (maxH : nat) : state :=
   mkState ∅ ∅ 0%nat [] ∅ (Heap.empty maxH) (mkAdj (replicate maxH []) 0 0 (Z.of_nat maxH + 1))
-          [] 1 0 0 [] [] (Z.of_nat maxH) [].
+          [] 1 0 0 [] [] [] (Z.of_nat maxH) [].
 
 (** * Operations of a history *)
 Inductive op :=
